@@ -183,17 +183,32 @@ def gen(repo, rel, ns, int_consts, byte_consts, packed, funcs, ctrl_write_impl):
             raise exlib.ExtractError("ArrayVec `%s` of write_impl not found in %s" % (var, rel))
     if ns == "Packet6":
         body = exlib.fn_body(src, "write_connless_packet", 0, rel)
-        m = re.search(r"buffer\.write\(&\[\s*b'(\\x[0-9a-fA-F]{2})'\s*;", body)
+        pat = r"\[\s*(?:b'\\x([0-9a-fA-F]{2})'|0x([0-9a-fA-F]{1,2})|([0-9]{1,3}))(?:u8)?\s*;"
+        m = re.search(r"buffer\.write\(&" + pat, body)
+        if not m:
+            # the prefix may live in a named byte-array constant: `buffer.write(&NAME)`
+            k = re.search(r"buffer\.write\(&\s*([A-Z][A-Z0-9_]*)\s*\)", body)
+            if k:
+                c = re.search(r"\bconst\s+%s\s*:\s*\[u8;[^\]]*\]\s*=\s*%s" % (re.escape(k.group(1)), pat), src)
+                m = c
         if not m:
             raise exlib.ExtractError("padding bytes of write_connless_packet not found in %s" % rel)
-        s += "/-- the byte a connless packet's header and padding consist of -/\ndef CONNLESS_PADDING_BYTE : Nat := %d\n\n" % int(m.group(1)[2:], 16)
+        pad = int(m.group(1), 16) if m.group(1) else (int(m.group(2), 16) if m.group(2) else int(m.group(3)))
+        s += "/-- the byte a connless packet's header and padding consist of -/\ndef CONNLESS_PADDING_BYTE : Nat := %d\n\n" % pad
     # the size limit of the connectionless writer: `if payload.len() > <expr> { return Err(TooLongData) }`
     body = exlib.fn_body(src, "write_connless_packet", 0, rel)
     m = re.search(r"payload\.len\(\)\s*>\s*([^{]+)\{\s*return\s+Err\(Error::TooLongData\)", body)
     if not m:
         raise exlib.ExtractError("size check of write_connless_packet not found in %s" % rel)
+    env_all = dict(env)
+    for k in re.finditer(r"\bconst\s+([A-Z][A-Z0-9_]*)\s*:", src):
+        if k.group(1) not in env_all:
+            try:
+                env_all[k.group(1)] = const_eval(src, k.group(1), rel, env_all)
+            except exlib.ExtractError:
+                pass
     try:
-        lim = int(eval(m.group(1), {"__builtins__": {}}, dict(env)))
+        lim = int(eval(m.group(1), {"__builtins__": {}}, env_all))
     except Exception as ex:
         raise exlib.ExtractError("cannot evaluate the connless size limit %s in %s: %r" % (m.group(1).strip(), rel, ex))
     s += "/-- `write_connless_packet` refuses payloads longer than `%s` -/\n" % m.group(1).strip()
